@@ -1000,7 +1000,7 @@ class ShapeResult:
 def explore(shape_id, run, judge, *, max_paths=2000, solver_timeout_ms=20000, max_decisions=4000,
             path_wall_s=60.0, wall_budget_s=None, max_violations=8, check_overflow=True,
             known_classes=None, on_model=None, profile=False, witnesses_per_class=1,
-            outcome_class=lambda out: str(out[0]) if isinstance(out, tuple) else str(getattr(out, 'kind', out))
+            outcome_class=lambda out: str(out[0]) if isinstance(out, tuple) else str(getattr(out, 'cls', out))
             ) -> ShapeResult:
     """run(ctx) -> outcome ;  judge(ctx, outcome) -> list[(name, z3 Bool that must hold)].
 
